@@ -87,6 +87,37 @@ def studyDataWritesLocked (shape : List (Rpc × List (DsCall × List LockTable))
 def idAllocationLocked (shape : List (Rpc × List (DsCall × List LockTable))) : Bool :=
   shape.all fun (_, calls) => calls.all fun c => !(c.1 == .createTrial) || c.2.contains .study
 
+/-- datastore calls that insert a row of a child table (trials, suggestion / early-stopping operations): the SQL
+    datastore stores such a row without looking at the study row -/
+def DsCall.createsChildRow : DsCall → Bool
+  | .createTrial | .createSuggestionOperation | .createEarlyStoppingOperation => true
+  | _ => false
+
+/-- datastore calls that fail with NotFoundError when the study does not exist (on both datastores) -/
+def DsCall.needsStudy : DsCall → Bool
+  | .loadStudy | .maxTrialId => true
+  | _ => false
+
+/-- No row of a child table is created for a study that `DeleteStudy` removed meanwhile: every row-creating call
+    holds a lock `L` that `delete_study` is called under as well, and an EARLIER call of the same RPC (shape order =
+    source order of first occurrence) that fails on a missing study holds `L` too - so between that lookup and the
+    insertion the study cannot disappear.  (Until repairs a79221c / 948965a `DeleteStudy` took no lock at all:
+    `c04_orphan_rows_counterexample`.) -/
+def childRowsGuarded (shape : List (Rpc × List (DsCall × List LockTable))) : Bool :=
+  let delLocks := ((callsOf shape .deleteStudy).filter (·.1 == .deleteStudy)).flatMap (·.2)
+  shape.all fun (_, calls) =>
+    (List.range calls.length).all fun i =>
+      match calls[i]? with
+      | none => true
+      | some c =>
+        !c.1.createsChildRow ||
+          c.2.any fun l => delLocks.contains l &&
+            ((calls.take i).any fun d => d.1.needsStudy && d.2.contains l)
+
+/-- the shape of the pinned commit as far as `DeleteStudy` is concerned: no lock around `delete_study` -/
+def shapeWithUnlockedDelete : List (Rpc × List (DsCall × List LockTable)) :=
+  assumedShape.map fun rc => if rc.1 == .deleteStudy then (rc.1, [(.deleteStudy, [])]) else rc
+
 /-! ### coarse two-thread semantics for study-lock RPCs -/
 
 /-- a study-lock RPC: an optional unguarded study check, then its critical section -/
